@@ -32,3 +32,65 @@ SPECS['C03'] = {'runs': parse_runs('C03', ['C03'], 6, 7, 4, 5, 6, 7, extra=[
 SPECS['C04'] = {'runs': parse_runs('C04', ['C04'], 5, 6, 3, 4, 5, 6), 'assumptions': COMMON_ASSUME, 'bounds': {'quick': 'N<=5, W N<=3, M<=5', 'thorough': 'N<=6, W 4, M<=6'}, 'outside': 'longer texts'}
 SPECS['C05'] = {'runs': parse_runs('C05', ['C05'], 4, 5, 3, 4, 4, 5), 'assumptions': COMMON_ASSUME + ['maxChars: one unconstrained symbolic 32-bit int per URI; charsWritten NULL or not is a symbolic choice'],
     'bounds': {'quick': 'parsed URIs N<=4 (W 3, M<=4) x every int maxChars', 'thorough': 'N<=5 (W 4, M 5)'}, 'outside': 'ranges >= 2^31 characters'}
+
+# ---------------------------------------------------------------- URI-level operations (shape-bounded texts, see harness/gen.h)
+KFN = []   # known-finding defines are added by ./check from known_findings.json
+RES_PATH = ['BFLAGS=(G_SCHEME_REQ|G_AUTH)', 'RFLAGS=0']
+RES_CB = ['KB=0', 'KR=1', 'SEGL=1', 'BFLAGS=(G_SCHEME_REQ|G_AUTH_REQ|G_USERINFO|G_PORT|G_HOSTKINDS)', 'RFLAGS=(G_SCHEME_OPT|G_QUERY)']
+RES_CR = ['KB=1', 'KR=0', 'SEGL=1', 'BFLAGS=(G_SCHEME_REQ|G_AUTH|G_QUERY)', 'RFLAGS=(G_SCHEME_OPT|G_AUTH_REQ|G_USERINFO|G_PORT|G_HOSTKINDS|G_FRAG)']
+RES_CM = ['KB=1', 'KR=1', 'SEGL=1', 'BFLAGS=(G_SCHEME_REQ|G_AUTH|G_QUERY)', 'RFLAGS=(G_SCHEME_OPT|G_AUTH|G_QUERY|G_FRAG)']
+RES_REL = ['KB=1', 'KR=1', 'SEGL=1', 'BFLAGS=(G_SCHEME_OPT|G_AUTH)', 'RFLAGS=(G_SCHEME_OPT)']
+RESCOV = ['ref-absolute-path', 'ref-merged', 'ref-empty-path']
+def resolve_runs(P, tier):
+    P = ['P_' + p for p in P]
+    rs = [R('resolve-paths', 'h_resolve.c', P + ['KB=2', 'KR=2', 'SEGL=2'] + RES_PATH, 'base "x:" [//host] + <=2 segments, reference = path of <=2 segments (optional leading /), segments <=2 chars over [a-z.]; strict and compat mode', RESCOV + ['slash-dot-guard-expected'], 400),
+          R('resolve-base-authority', 'h_resolve.c', P + RES_CB, 'base with every authority shape (user info none/empty/1 char, host reg-name/IPv4/IPv6/IPvFuture, port none/empty/1 digit), reference [scheme] path<=1 seg [?query]', RESCOV + ['ref-has-scheme'], 400),
+          R('resolve-mixed', 'h_resolve.c', P + RES_CM, 'base scheme [//host] path<=1 [?q]; reference [scheme] [//host] path<=1 [?q] [#f]; 1-char segments', RESCOV + ['ref-has-scheme', 'ref-has-authority'], 600),
+          R('resolve-relative-base', 'h_resolve.c', P + RES_REL, 'base with or without scheme (error code for relative base)', ['relative-base'], 300)]
+    if tier == 'thorough':
+        rs += [R('resolve-paths-3', 'h_resolve.c', P + ['KB=2', 'KR=3', 'SEGL=2'] + RES_PATH, 'as resolve-paths with references of <=3 segments', RESCOV, 1500),
+               R('resolve-ref-authority', 'h_resolve.c', P + RES_CR, 'reference with every authority shape, base scheme [//host] path<=1 [?q]', ['ref-has-authority', 'ref-has-scheme'], 2400)]
+    return rs
+SPECS['C06'] = {'runs': {'quick': resolve_runs(['C06'], 'quick'), 'thorough': resolve_runs(['C06'], 'thorough')},
+    'assumptions': COMMON_ASSUME + ['oracle R: RFC 3986 5.2.2/5.2.3 and segment-wise dot removal on strings (oracle/oracle_resolve.h); filler characters symbolic over [a-z], path characters over [a-z.]; IPv6 hosts in full lowercase form'],
+    'bounds': {'quick': 'base<=2 x ref<=2 segments of <=2 chars (paths); all authority shapes on the base with 1-segment refs; mixed optional components with 1-char segments', 'thorough': 'plus ref<=3 segments and all authority shapes on the reference'},
+    'outside': 'longer paths, other characters than the class representatives, products of all optional components at once'}
+
+NORM_CASE = ['KN=1', 'SEGL=1', 'GEN_ALPHA_CASE', 'NFLAGS=(G_SCHEME_OPT|G_AUTH|G_HOSTKINDS)']
+NORM_PCT_Q = ['KN=1', 'SEGL=1', 'NFLAGS=(G_AUTH|G_QUERY|G_PCT)', 'MASKS=0,2,4,8,16,63']
+NORM_PCT_T = ['KN=1', 'SEGL=1', 'NFLAGS=(G_AUTH|G_USERINFO|G_QUERY|G_FRAG|G_PCT)']
+NORM_DOTS = ['KN=3', 'SEGL=2', 'GEN_PATH_COLON', 'NFLAGS=(G_SCHEME_OPT|G_AUTH)', 'MASKS=0,8,63']
+def norm_runs(P, tier, full=True):
+    cov0 = 'normal-form-compared' if 'C08' in P else 'relative-path-ref' if 'C09' in P else 'owned-in-place'
+    P = ['P_' + p for p in P]
+    rs = [R('norm-dots', 'h_norm.c', P + NORM_DOTS, '[scheme] [//host] path of <=3 segments of <=2 chars over [a-z.:]; masks {0, PATH, all, required}; borrowed and owned', [cov0, 'owned-in-place', 'borrowed-copying'], 600)]
+    if full:
+        rs += [R('norm-case', 'h_norm.c', P + NORM_CASE, '[scheme] [//authority with every host kind] path<=1: letters of scheme and host symbolic over both cases; masks {0, each single bit, all, required}', [cov0, 'host-ip4', 'host-ip6', 'host-ipfuture', 'host-regname'], 400),
+               R('norm-pct', 'h_norm.c', P + (NORM_PCT_T if tier == 'thorough' else NORM_PCT_Q), 'one percent-encoded triplet with symbolic hex digits at any position of host / path / query (thorough: also user info, fragment)', [cov0], 2400 if tier == 'thorough' else 600)]
+    if tier == 'thorough':
+        rs.append(R('norm-fullmask', 'h_norm.c', P + ['KN=1', 'SEGL=1', 'FULLMASK', 'GEN_ALPHA_CASE', 'NFLAGS=(G_SCHEME_OPT|G_AUTH|G_QUERY)'], 'all 64 masks (symbolic mask byte) on [scheme] [//host] path<=1 [?q]', [cov0], 2400))
+    return rs
+SPECS['C08'] = {'runs': {'quick': norm_runs(['C08'], 'quick'), 'thorough': norm_runs(['C08'], 'thorough')},
+    'assumptions': COMMON_ASSUME + ['oracle N: RFC 3986 6.2.2 normal form on strings (oracle/oracle_norm.h); where plain dot removal would need a guard prefix (classes ON_CLS_*) C08 pins no text and C07/C09 apply'],
+    'bounds': {'quick': 'see runs: <=3 segments of <=2 chars; one percent triplet; masks {0, single bits, all, required}', 'thorough': 'plus all 64 masks on small shapes, triplets in every component'}, 'outside': 'longer inputs; several triplets at once'}
+SPECS['C09'] = {'runs': {'quick': [R('normres', 'h_normres.c', ['KB=2', 'KR=2', 'SEGL=2', 'GEN_PATH_COLON'], 'base "x:" [//host] <=2 segments; reference [scheme] [//host] <=2 segments, <=2 chars over [a-z.:]', ['ref-absolute', 'ref-network-path', 'ref-absolute-path', 'ref-relative-path'], 600)] + norm_runs(['C09'], 'quick', full=False),
+                         'thorough': [R('normres', 'h_normres.c', ['KB=2', 'KR=3', 'SEGL=2', 'GEN_PATH_COLON'], 'as quick with references of <=3 segments', ['ref-relative-path'], 2400)] + norm_runs(['C09'], 'thorough', full=False)},
+    'assumptions': COMMON_ASSUME + ['references contain no percent-encoding (so no percent-encoded dot segment), as the property states'],
+    'bounds': {'quick': 'base<=2, reference<=2 segments of <=2 chars', 'thorough': 'reference<=3 segments'}, 'outside': 'longer paths'}
+SHORT = ['KS=2', 'KB=2', 'SEGL=1', 'SFLAGS=(G_SCHEME_REQ|G_AUTH)', 'BFLAGS=(G_SCHEME_REQ|G_AUTH)']
+def shorten_runs(P, tier):
+    P = ['P_' + p for p in P]
+    rs = [R('shorten-paths', 'h_shorten.c', P + SHORT, 'S and B: scheme [//host] <=2 segments of <=1 char over [a-z.]; both modes', ['schemes-differ', 'same-authority-domain-root', 'same-authority-relative'], 600),
+          R('shorten-authority', 'h_shorten.c', P + ['KS=1', 'KB=1', 'SEGL=1', 'SFLAGS=(G_SCHEME_REQ|G_AUTH_REQ|G_USERINFO|G_PORT)', 'BFLAGS=(G_SCHEME_REQ|G_AUTH_REQ|G_USERINFO|G_PORT)'], 'S and B with user info none/empty/1 char and port none/empty/1 digit, <=1 segment', ['same-authority-relative'], 600),
+          R('shorten-nonabsolute', 'h_shorten.c', P + ['KS=1', 'KB=1', 'SEGL=1', 'SFLAGS=(G_SCHEME_OPT|G_AUTH)', 'BFLAGS=(G_SCHEME_OPT|G_AUTH)'], 'S or B without scheme (error codes)', ['non-absolute-rejected'], 300)]
+    if tier == 'thorough':
+        rs.append(R('shorten-paths-3', 'h_shorten.c', P + ['KS=3', 'KB=3', 'SEGL=1', 'GEN_PATH_COLON', 'SFLAGS=(G_SCHEME_REQ|G_AUTH|G_QUERY)', 'BFLAGS=(G_SCHEME_REQ|G_AUTH|G_QUERY)'], '<=3 segments over [a-z.:], optional queries', ['same-authority-relative'], 2400))
+    return rs
+SPECS['C10'] = {'runs': {'quick': shorten_runs(['C10'], 'quick'), 'thorough': shorten_runs(['C10'], 'thorough')},
+    'assumptions': COMMON_ASSUME + ['inverse check uses the real resolver (uriAddBaseUriExMm, decided by C06) and oracle R for dot-segment normalisation'],
+    'bounds': {'quick': '<=2 segments of 1 char each side', 'thorough': '<=3 segments, queries'}, 'outside': 'longer paths'}
+SPECS['C11'] = {'runs': {'quick': [R('equals', 'h_equals.c', ['KE=1', 'SEGL=1', 'EFLAGS=(G_SCHEME_OPT|G_AUTH|G_QUERY|G_FRAG)'], 'two texts: [scheme] [//host] path<=1 segment [?q] [#f], 1-char pieces', ['equal', 'different'], 600)],
+                         'thorough': [R('equals', 'h_equals.c', ['KE=1', 'SEGL=1', 'EFLAGS=(G_SCHEME_OPT|G_AUTH|G_QUERY|G_FRAG)'], 'as quick', ['equal', 'different'], 900),
+                                      R('equals-paths', 'h_equals.c', ['KE=3', 'SEGL=1', 'EFLAGS=(G_SCHEME_OPT|G_AUTH)'], 'two texts with <=3 segments', ['equal', 'different'], 2400),
+                                      R('equals-hosts', 'h_equals.c', ['KE=0', 'SEGL=1', 'EFLAGS=(G_AUTH_REQ|G_USERINFO|G_PORT|G_HOSTKINDS)'], 'two authorities of every shape', ['equal', 'different'], 2400)]},
+    'assumptions': COMMON_ASSUME, 'bounds': {'quick': 'pairs of small shapes', 'thorough': 'plus <=3 segments and all authority shapes'}, 'outside': 'transitivity is implied by the proved equivalence with text identity, not asserted on triples'}
